@@ -25,8 +25,11 @@ def gen_users(rng, encrypted, max_users=3):
         else:
             rel = 'same'
         users.append({'rel': rel, 'parent': rng.randrange(0, i)})
+    stem = 'a long pass phrase shared by everybody in the office, ' * 2 if rng.random() < 0.2 else ''
+    stem = stem[:58]
     for i, u in enumerate(users):
-        u['password'] = f'pw-{i}-' + ''.join(rng.choice('abcdefghijklmnopqrstuvwxyz') for _ in range(6))
+        u['password'] = stem + f'pw-{i}-' + ''.join(rng.choice('abcdefghijklmnopqrstuvwxyz') for _ in range(6))
+        u['kdf'] = rng.choice(['scrypt', 'scrypt', 'scrypt', 'blake2b'])
         u['N'] = rng.choice([1, 2, 2, 3, 4])
         if u['rel'] == 'clone':
             u['password'] = users[u['parent']]['password']
@@ -125,7 +128,8 @@ def gen_history(seed, label, *, encrypted=None, max_users=3, nops=(3, 10), destr
         elif k < 0.85 and foreign_delete and len(users) > 1:
             ops.append({'op': 'delete_foreign', 'u': u, 'pick': rng.randrange(0, 8)})
         elif k < 0.9 and wrong_unlock and enc and len(users) > 1:
-            ops.append({'op': 'unlock_wrong', 'u': u, 'other': rng.randrange(len(users)), 'what': rng.choice(['password', 'key'])})
+            ops.append({'op': 'unlock_wrong', 'u': u, 'other': rng.randrange(len(users)), 'what': rng.choice(['password', 'key', 'near', 'near']),
+                        'variant': rng.randrange(4)})
         elif reads:
             op = {'op': rng.choice(['restore', 'ls', 'lf']), 'u': u}
             if filters:
@@ -259,8 +263,15 @@ class History:
                 kw = {'shared': True}
             elif u['rel'] == 'clone':
                 kw = {'clone': True}
-            ks = {'encryption': {'kdf': {'name': 'scrypt', 'n': 2 + 2 * (i % 2), 'r': 1 + (i % 3)}}}
+            ks_scrypt = {'encryption': {'kdf': {'name': 'scrypt', 'n': 2 + 2 * (i % 2), 'r': 1 + (i % 3)}}}
+            ks = ks_scrypt
+            if u.get('kdf') == 'blake2b':
+                ks = {'encryption': {'kdf': {'name': 'blake2b'}}}
             r = W.add_key(parent, self.clients[i], settings=ks, opts=seq, profile=W.profile(lat_kind='zero'), **kw)
+            if not r.ok and ks is not ks_scrypt and r.exc is not None:
+                # keyed BLAKE2b refuses pass-phrases over 64 bytes: this user falls back to scrypt
+                self.probe('blake2b_kdf_refused')
+                r = W.add_key(parent, self.clients[i], settings=ks_scrypt, opts=seq, profile=W.profile(lat_kind='zero'), **kw)
             if not r.ok:
                 raise RuntimeError(f'add-key failed in harness: {r.outcome()} {r.exc!r}')
             self.stdouts.append(('add-key', r.stdout))
@@ -275,6 +286,22 @@ class History:
             for name, b in case['decoys'].items():
                 W.state.objects[name] = base64.b64decode(b)
         self.config_bytes = cfg
+        if 'near_miss' in self.oracles and self.enc:
+            # a password that differs only in its tail / length never unlocks
+            async def noop(repo):
+                return True
+            rng = substream(case['sched_seed'], 'near-miss')
+            for i, c in enumerate(self.clients):
+                pw = c.password
+                variants = [pw[:-1], pw + b'\n', pw[:64] if len(pw) > 64 else pw + b' ', pw[:-1] + bytes([pw[-1] ^ 1])]
+                v = variants[rng.randrange(4)] if len(pw) <= 64 else variants[2]
+                if v == pw:
+                    continue
+                self.probe('near_miss_unlock')
+                r = W.run(world.Client('x', password=v, key=c.key, concurrent=1), noop, seq)
+                if r.ok:
+                    raise Violation('access-unlock', f'key of u{i} (pass-phrase of {len(pw)} bytes) also unlocks with a different pass-phrase of {len(v)} bytes',
+                                    {'what': 'near-miss'})
 
     def family(self, u):
         return self.refs[u].family_id()
@@ -438,9 +465,14 @@ class History:
         cu, co = self.clients[u], self.clients[o]
         if op['what'] == 'password':
             pw, key = co.password + b'x' if co.password == cu.password else co.password, cu.key
+        elif op['what'] == 'near':
+            v = op.get('variant', 0) % 4
+            pw = [cu.password[:-1], cu.password + b'\n', cu.password[:64] if len(cu.password) > 64 else cu.password + b' ',
+                  cu.password[:-1] + bytes([cu.password[-1] ^ 1])][v]
+            key = cu.key
         else:
             pw, key = cu.password, co.key
-        if self.refs[u].userkey == self.refs[o].userkey and op['what'] == 'key':
+        if op['what'] != 'near' and self.refs[u].userkey == self.refs[o].userkey and op['what'] == 'key':
             return
         # does the (key, password) pair legitimately match?  decided by the reference reader
         try:
@@ -861,9 +893,7 @@ class History:
             return
         # unchanged data (same paths, same contents as a live snapshot of the same family) transfers nothing
         mine = self.snaps[-1] if self.snaps and self.snaps[-1].owner == u else None
-        # (with max_length % 4 != 0 chunk boundaries depend on adjacent memory: known finding C10-oob-unaligned-max, judged there)
-        aligned = self.case['settings']['chunking']['max_length'] % 4 == 0
-        if ups and mine is not None and not self.orphans_possible and aligned:
+        if ups and mine is not None and not self.orphans_possible:
             shape = {p: v[0] for p, v in mine.files.items()}
             for other in self.snaps[:-1]:
                 if other.alive and self.can_see(u, other) and {p: v[0] for p, v in other.files.items()} == shape:
@@ -908,11 +938,10 @@ class History:
                 add('note', s_.note.encode(), text=True)
             for p, (data, mt) in s_.files.items():
                 add('mtime', str(mt).encode(), text=True)
-                if len(set(data)) >= 8:
-                    add('file content', data[:12])
-                    add('file content', data[-12:])
-                    if len(data) > 40:
-                        add('file content', data[len(data) // 2:len(data) // 2 + 12])
+                # only windows that are themselves high-entropy (a run of spaces or zeros occurs in any indented JSON)
+                for w in (data[:12], data[-12:], data[len(data) // 2:len(data) // 2 + 12] if len(data) > 40 else b''):
+                    if len(w) == 12 and len(set(w)) >= 9:
+                        add('file content', w)
                 add('file digest', self.refs[s_.owner].hash(data))
             dec = getattr(s_, 'decoded', None)
             if dec is not None:
